@@ -62,7 +62,11 @@ def evalIR (fns : List FnDef) : Nat → IR → List Val → Option (Val × List 
         -- the value of `a` is a temporary below `b`
         match evalIR fns fuel b (s1 ++ [va]) with
         | none => none
-        | some (vb, s2) => (op.apply va vb).map (·, s2.dropLast)
+        | some (vb, s2) =>
+          -- the first operand is read back from its stack slot
+          match s2.getLast? with
+          | none => none
+          | some va' => (op.apply va' vb).map (·, s2.dropLast)
   | fuel, .ite c t e, s =>
       match evalIR fns fuel c s with
       | none => none
